@@ -1673,3 +1673,150 @@ Section CapMain2.
   Qed.
 End CapMain2.
 
+
+(* ---- layertree.go cap preserves the invariant ------------------------------------------------------------------- *)
+Lemma dive_live s : Inv s -> forall n l r d, tget s r = Some l -> dive n s l = Some d -> exists rd, tget s rd = Some d.
+Proof.
+  intros I. induction n as [|n IH]; intros l r d Ht Hd; cbn [dive] in Hd.
+  - inversion Hd; subst. eauto.
+  - destruct (hget s l) as [[|r0 i0 n0 ss0 p]|] eqn:El; try discriminate.
+    destruct (hget s p) as [[|r1 i1 n1 ss1 p1]|] eqn:Ep; try discriminate.
+    destruct (inv_path s I _ _ Ht) as (_ & q & Hq & _ & _ & Hobj).
+    destruct q as [|a q]; cbn [app] in Hq.
+    + destruct Hq as [_ (? & ? & ? & ? & ? & H)]. congruence.
+    + destruct Hq as [-> Hq]. cbn [app] in Hobj. destruct (q ++ [t_base (tr s)]) as [|y rest] eqn:E; [destruct q; discriminate|].
+      destruct Hq as [(r2 & i2 & n2 & ss2 & H) _]. rewrite El in H. inversion H; subst y.
+      destruct (Hobj p) as (rp & _ & Htp); [right; now left|]. eapply IH; eauto.
+Qed.
+
+Definition Inv2 (s : db) : Prop := Inv s /\ c_relink (cfg s) = true.
+
+Lemma cap_inv s root layers s' : Inv2 s -> tree_cap s root layers = (s', Ok tt) -> Inv2 s'.
+Proof.
+  intros [I Hrl] H. unfold tree_cap in H.
+  destruct (tget s root) as [l|] eqn:Hl; [|inversion H].
+  destruct (hget s l) as [[|lr li ln lss lp]|] eqn:Hhl; try (inversion H; fail).
+  destruct (layers =? 0) eqn:E0.
+  - (* full commit *)
+    destruct (persist (walk_fuel s) s l true) as [s1 r] eqn:Ep. destruct r as [nb| |]; try (inversion H; fail).
+    destruct (inv_path s I _ _ Hl) as (_ & q & Hq & _).
+    destruct (persist_spec (length (heap s)) _ _ _ _ _ _ _ _ _ _ _ _ Ep Hq Hhl (le_n _)) as (HEv & Hge & b & f & Hnb).
+    rewrite Hnb in H. inversion H; subst. cbn [layer_root]. split.
+    + eapply singleton_inv; eauto.
+    + cbn [cfg with_tr]. rewrite (ev_cfg _ _ _ _ HEv). exact Hrl.
+  - destruct (dive (N.to_nat (layers - 1)) s l) as [diff|] eqn:Ed; [|inversion H; subst; split; auto].
+    destruct (dive_live s I _ _ _ _ Hl Ed) as (rd & Hdlive).
+    destruct (hget s diff) as [[|dr di dn dss parent]|] eqn:Hdiff; try (inversion H; fail).
+    destruct (hget s parent) as [[|pr pi pn pss pp]|] eqn:Hparent; try (inversion H; subst; split; auto; fail).
+    destruct (persist (walk_fuel s) s parent false) as [s1 r] eqn:Ep. destruct r as [nb| |]; try (inversion H; fail).
+    destruct (cm_paths s diff parent dr di dn dss pr pi pn pss pp rd I Hdlive Hdiff Hparent) as (qp & Hpp & Hnd & Hobj).
+    destruct (persist_spec (length (heap s)) _ _ _ _ _ _ _ _ _ _ _ _ Ep Hpp Hparent (le_n _)) as (HEv & Hge & b & f & Hnb).
+    rewrite Hnb in H.
+    destruct (inv_base s I) as (br & bi & bb & bf & Hbase).
+    destruct (ev_disk _ _ _ _ HEv _ _ _ _ _ _ Hbase) as (bb' & bf' & bst' & Hbase1).
+    assert (Hbr : base_root s1 = Some br).
+    { unfold base_root. rewrite (ev_tr _ _ _ _ HEv), Hbase1. reflexivity. }
+    rewrite Hbr in H. cbn [layer_root] in H.
+    assert (Hcfg2a : forall t, cfg (set_parent (with_tr s1 t) diff nb) = cfg s).
+    { intros t. destruct (set_parent_tr (with_tr s1 t) diff nb) as (_ & Hc & _). rewrite Hc. cbn [cfg with_tr].
+      apply (ev_cfg _ _ _ _ HEv). }
+    rewrite Hcfg2a, Hrl in H.
+    match type of H with context [remove_rec ?fu ?s2 ?t1 ?ch ?w] =>
+      destruct (remove_rec fu s2 t1 ch w) as [t2|] eqn:Er; [|inversion H] end.
+    apply remove_rec_spec in Er. destruct Er as (Rm & cl & HR1 & HR2 & HR3 & HR4 & HR5 & HR6 & HR7 & HR8 & HR9).
+    inversion H; subst s'. clear H.
+    match goal with |- Inv2 (with_tr ?x _) => set (s2 := x) in * end.
+    assert (Hp2 : exists y', hget s2 parent = Some (Diff pr pi pn pss y')).
+    { destruct (cm_path_h2 s s1 diff parent nb dr di dn dss pr pi pn pss pp qp b Hdiff Hparent Hpp Hnd Hobj HEv Hge
+                  parent pr pi pn pss pp (or_introl eq_refl) Hparent) as (y' & Hy & _). eauto. }
+    destruct Hp2 as (y' & Hp2).
+    destruct (clear_diff_spec s2 t2 (Some parent)) as (C1 & C2 & C3 & C4).
+    unfold clear_diff in C2, C3, C4. rewrite C2, C3, C4. cbn [cl_entry]. rewrite Hp2.
+    split.
+    + eapply (cm_inv s s1 diff parent nb dr di dn dss pr pi pn pss pp qp b f I Hdiff Hparent Hpp Hnd Hobj HEv Hge Hnb
+                     Rm cl t2 br); eauto.
+      * exists (Disk br bi bb bf false). auto.
+      * apply HR6. now left.
+      * apply HR9. cbn [t_layers]. apply (nodup_keys_aset N.eqb N.eqb_eq). rewrite (ev_tr _ _ _ _ HEv). apply (inv_layers_nodup s I).
+    + cbn [cfg with_tr]. unfold s2. rewrite relink_eq.
+      match goal with |- context [fold_left ?f ?ls ?s0] =>
+        destruct (relink_spec diff parent nb ltac:(pose proof (hget_lt _ _ _ Hparent); lia) ls s0) as (_ & Hc & _) end.
+      rewrite Hc, Hcfg2a. exact Hrl.
+Qed.
+
+(* ---- every operation preserves the invariant ---------------------------------------------------------------------- *)
+Lemma Inv_htc s s' : same_htc s s' -> Inv s -> Inv s'.
+Proof.
+  intros (Hh & Ht & _) I.
+  assert (Hg : forall x, hget s' x = hget s x) by (intros; unfold hget; now rewrite Hh).
+  assert (Htg : forall r, tget s' r = tget s r) by (intros; unfold tget; now rewrite Ht).
+  assert (Hp : forall a p, is_path s' a p <-> is_path s a p).
+  { intros a p. split; apply is_path_ext; auto. }
+  assert (Hro : forall x r, root_of s' x r <-> root_of s x r) by (intros; unfold root_of; now rewrite Hg).
+  assert (Hk : forall x k v, has_key s' x k v <-> has_key s x k v) by (intros; unfold has_key; now rewrite Hg).
+  assert (Hl : forall k, lk_list s' k = lk_list s k) by (intros; unfold lk_list; now rewrite Ht).
+  assert (Hlv : live_roots s' = live_roots s) by (unfold live_roots; now rewrite Ht).
+  constructor.
+  - rewrite Ht. destruct (inv_base s I) as (a & b & c & d & H). exists a, b, c, d. now rewrite Hg.
+  - intros r lid H. rewrite Htg in H. destruct (inv_path s I _ _ H) as (Hr & q & Hq & Hql & Hqn & Hqo).
+    split; [now apply Hro|]. rewrite Ht. exists q. split; [now apply Hp|]. split; [now rewrite Hh|]. split; auto.
+    intros x Hx. destruct (Hqo _ Hx) as (rx & Hrx & Htx). exists rx. split; [now apply Hro|now rewrite Htg].
+  - intros r lid p e H Hpth. rewrite Htg in H. apply Hp in Hpth. rewrite Ht, (inv_desc s I _ _ _ e H Hpth).
+    split; intros (x & Hx & Hrx); exists x; split; auto; now apply Hro.
+  - intros k e. rewrite Hl, (inv_lookup s I). split; intros (lid & v & H & Hkk); exists lid, v; split;
+      try (now rewrite Htg); try (now rewrite <- Htg); now apply Hk.
+  - intros k. rewrite Hl, Ht. apply (inv_order s I).
+  - intros r e H. rewrite Ht in H. rewrite Hlv. apply (inv_desc_live s I _ _ H).
+  - intros k. rewrite Hl. apply (inv_lk_nodup s I).
+  - intros r lid r' i n ss p H Hd. rewrite Htg in H. rewrite Hg in Hd. eapply (inv_keys_nodup s I); eauto.
+  - rewrite Ht. apply (inv_layers_nodup s I).
+Qed.
+
+Lemma add_step_inv s root parent nodes states s' r :
+  Inv2 s -> NoDup (map fst (kv_data states)) -> tree_add s root parent nodes states = (s', r) -> Inv2 s'.
+Proof.
+  intros [I Hrl] Hnd H. unfold tree_add in H.
+  destruct (root =? parent); [inversion H; subst; split; auto|].
+  destruct (tget s root) eqn:Hr; [inversion H; subst; split; auto|].
+  destruct (tget s parent) as [p|] eqn:Hp; [|inversion H; subst; split; auto].
+  destruct (hget s p) as [pl|] eqn:Hpl; [|inversion H; subst; split; auto].
+  inversion H; subst. split; [|exact Hrl].
+  apply (add_inv s root p pl nodes states I Hr (ex_intro _ parent Hp) Hpl Hnd).
+Qed.
+
+Lemma step_inv s o s' : Inv2 s -> step s o = (s', Ok tt) -> Inv2 s'.
+Proof.
+  intros I2 H. destruct o as [root parent states nodes|root layers|root|]; cbn [step] in H.
+  - unfold db_update in H. destruct (tree_add s root parent (nset_of_list nodes) (sset_of_list states)) as [s1 r1] eqn:Ea.
+    assert (Inv2 s1) by (eapply add_step_inv; eauto; apply (kv_of_list_nodup skey_eqb skey_hdr skey_eqb_spec)).
+    destruct r1 as [[]| |]; try (inversion H; fail).
+    eapply cap_inv; [|exact H]. destruct H0 as [I1 Hc]. split; auto.
+  - eapply cap_inv; eauto.
+  - unfold db_commit in H. eapply cap_inv; eauto.
+  - inversion H; subst. destruct I2 as [I Hrl]. pose proof (flush_all_htc s) as Hf. split.
+    + eapply Inv_htc; eauto.
+    + destruct Hf as (_ & _ & Hc). now rewrite Hc.
+Qed.
+
+(* histories: every operation either succeeds, or is rejected with an error and
+   leaves the database untouched (cycle, duplicate, missing parent / layer, disk
+   layer).  Histories in which an operation fails half-way with an internal error
+   (flush errors, fuel, dangling references) or panics are not covered. *)
+Inductive reach : db -> list op -> db -> Prop :=
+| reach_nil s : reach s [] s
+| reach_ok s o s1 h s2 : step s o = (s1, Ok tt) -> reach s1 h s2 -> reach s (o :: h) s2
+| reach_rej s o e h s2 : step s o = (s, Err e) -> reach s h s2 -> reach s (o :: h) s2.
+
+Theorem reach_inv s h s' : Inv2 s -> reach s h s' -> Inv2 s'.
+Proof.
+  intros I2 H. induction H; auto. apply IHreach. eapply step_inv; eauto.
+Qed.
+
+Theorem read_correct_all c h s root :
+  c_relink c = true -> reach (init_db c) h s -> In root (live_roots s) ->
+  (forall k, exists v, sem_state s root k = Ok v /\ read_state s root k = Ok v) /\
+  (forall k, exists v, sem_node s root k = Ok v /\ read_node s root k = Ok v).
+Proof.
+  intros Hc Hr Hl. assert (I2 : Inv2 s) by (eapply reach_inv; [|exact Hr]; split; [apply init_inv|exact Hc]).
+  destruct I2 as [I _]. split; intros k; [apply read_state_correct|apply read_node_correct]; auto.
+Qed.
